@@ -99,7 +99,11 @@ def run_exh(shard, rec, B):
                 if p == 0:
                     d1 = {int(i): int(lets[i]) for i in range(N) if lets[i]}
                     d2 = {int(i): 'IXYZ'[lets[i]] for i in range(N) if lets[i]}
-                    for d in (d1, d2):
+                    # the same dictionary filled in descending and in shuffled key order (a dict keeps insertion order)
+                    ks = [int(i) for i in range(N) if lets[i]]
+                    d3 = {i: 'IXYZ'[lets[i]] for i in reversed(ks)}
+                    d4 = {i: int(lets[i]) for i in sorted(ks, key=lambda i: (i * 7 + 3) % 5)}
+                    for d in (d1, d2, d3, d4):
                         ok, P = rec.attempt("parse.dict", [d, N], lambda: lib.pauli(d, N))
                         if ok:
                             good, obs = _same(B, P, g, 0)
@@ -285,6 +289,18 @@ def run_rand(shard, rec, B):
                 except Exception as e:
                     good = False
                 rec.check("index." + kind, good and isinstance(R, lib.PauliList), lab, True)
+        # walking the list: nested and simultaneous walks of the SAME list object see every row, each time
+        if L <= 8:
+            ok, pairs = rec.attempt("iterate", case, lambda: [(B.gp(a), B.gp(b)) for a in PL for b in PL])
+            if ok:
+                want = [((i, j)) for i in range(L) for j in range(L)]
+                good = len(pairs) == L * L and all(np.array_equal(pairs[k][0][0], gs[i]) and pairs[k][0][1] == ps[i] % 4 and
+                                                  np.array_equal(pairs[k][1][0], gs[j]) and pairs[k][1][1] == ps[j] % 4 for k, (i, j) in enumerate(want))
+                rec.check("iterate.nested", good, case, L > 1, expected=L * L, observed=len(pairs))
+            ok, z = rec.attempt("iterate", case, lambda: [(B.gp(a), B.gp(b), repr(PL) is None) for a, b in zip(PL, 1 * PL)])
+            if ok:
+                good = len(z) == L and all(np.array_equal(z[i][0][0], gs[i]) and np.array_equal(z[i][1][0], gs[i]) and z[i][0][1] == z[i][1][1] == ps[i] % 4 for i in range(len(z)))
+                rec.check("iterate.zip", good, case, L > 1, expected=L, observed=len(z))
         # list negation and scalars
         for c, dp in ((None, 2), (1, 0), (-1, 2), (1j, 1), (-1j, 3), (np.float64(-1.0), 2), (np.complex128(1j), 1), (np.int64(1), 0), (np.complex64(-1j), 3)):
             ok, R = rec.attempt("scalar.list", [case, str(c)], (lambda: -PL) if c is None else (lambda: c * PL))
